@@ -45,6 +45,9 @@ def run(ctx):
     ctx.guard(roles, ctx)
     ctx.guard(literals, ctx)
     ctx.guard(emits, ctx)
+    ctx.guard(names, ctx, ki)
+    from . import c06 as _c06w
+    ctx.shared(_c06w.walker_state, ctx)      # a construct's later parts (elif / else, parameters) are attached to ITS instance, also when constructs nest
     from . import sentential
     ctx.guard(sentential.rule, ctx)
     from . import scope as _scope
@@ -495,3 +498,51 @@ def literals(ctx):
     f = repo.func(tg + '.accept_V_VAL')
     r.check(pm.match_canon(['self.accept(subtype(inst, 801))'], body_without_doc(f)) is not None, 'a value is generated by its R801 subtype', f,
             construct=tg + '.accept_V_VAL', key='val-sub', msg='accept_V_VAL does not dispatch on the R801 subtype')
+
+
+def names(ctx, ki):
+    """A model element that prebuild finds BY NAME is found through one attribute (`where(Key_Lett=...)` for classes and external
+    entities); the generated text must name the element by that same attribute, or translating the text again finds another element
+    or none."""
+    repo = ctx.repo
+    r = ctx.rule('C05-NAMES', 'text names a class / external entity by the attribute prebuild looks it up with', floor=10,
+                 oracle='writer / reader agreement: the look-up helpers of prebuild')
+    lookups = {}
+    for c in repo.classes(PB):
+        for m in c.body:
+            if not isinstance(m, ast.FunctionDef):
+                continue
+            for n in ast.walk(m):
+                if isinstance(n, ast.Call) and isinstance(n.func, ast.Subscript) and isinstance(n.func.value, ast.Attribute) and len(n.args) == 1:
+                    w = n.args[0]
+                    if isinstance(w, ast.Call) and dotted(w.func) == 'where' and len(w.keywords) == 1 and not w.args and \
+                            isinstance(w.keywords[0].value, ast.Name) and w.keywords[0].value.id in [a.arg for a in m.args.args]:
+                        lookups.setdefault(n.func.value.attr, set()).add(w.keywords[0].arg)
+    lookups = dict((k, v) for k, v in lookups.items() if k in ('O_OBJ', 'S_EE'))
+    if set(lookups) != {'O_OBJ', 'S_EE'} or any(len(v) != 1 for v in lookups.values()):
+        raise AnalysisError('prebuild no longer finds classes and external entities through one where(<attribute>=<parameter>) look-up each: %s' % lookups)
+    cls = repo.cls(SG + ':ActionTextGenWalker')
+    n_sites = 0
+    for m in cls.body:
+        if not (isinstance(m, ast.FunctionDef) and m.name.startswith('accept_')):
+            continue
+        env = ki.func_env(m, cls)
+        for n in ast.walk(m):
+            if not (isinstance(n, ast.Call) and src(n.func) in ('self.buf', 'self.buf_linebreak')):
+                continue
+            for a in n.args:
+                if not (isinstance(a, ast.Attribute) and isinstance(a.value, ast.Name)):
+                    continue
+                kinds_ = ki.expr_kinds(a.value, env, cls) or set()
+                for k in sorted(set(kinds_) & set(lookups)):
+                    want = sorted(lookups[k])[0]
+                    if len(set(kinds_)) != 1:
+                        continue
+                    n_sites += 1
+                    q = '%s:ActionTextGenWalker.%s' % (SG, m.name)
+                    r.check(a.attr == want, '%s names the %s by %s' % (m.name, k, want), a, construct=q, key='name-attr ' + src(a),
+                            msg='%s writes `%s` into the text, but prebuild finds a %s by %s (where(%s=...)): for an element whose %s differs from its '
+                                '%s the generated text names nothing (or something else), so it does not translate back to the same instances'
+                                % (m.name, src(a), k, want, want, a.attr, want))
+    if n_sites < 10:
+        raise AnalysisError('only %d name positions of classes / external entities found in sourcegen' % n_sites)
